@@ -27,6 +27,18 @@ T = {
          'Generated allocator-heavy histories (next_id, explicit adds around the allocator, collections, clone, merge, script variables); freshness invariant over the history. Exploration only.',
          'trusted: history bookkeeping; next_id generated only inside its documented domain (an absent id at or above the allocator position remains)',
          'stateful property testing; oracle = invariant over the history of returned ids'),
+ 'C08': ('twin', 'exploration',
+         'Differential twin runs: g built by a generated history, g2 = load(save(g)) through a real file; complete observations must agree and a generated continuation plus drain epilogue on both must produce identical traces (results, collections, all query outputs). Exploration only.',
+         'trusted: the interpreter; the comparison is implementation vs implementation; allocator-dependent calls are generated only when the one permitted difference (allocator restart) cannot show',
+         'differential (round-trip twin) stateful property testing with proptest-generated histories and continuations'),
+ 'C09': ('prefixes', 'fault_enumeration',
+         'Every cut point of the image of generated graphs is enumerated (all of them in thorough; all for images <= 4096 bytes in quick) and load() must return Err on each; the complete image must load (control).',
+         'fault model: a crash leaves a byte prefix of the image; load() called with the N used for save()',
+         'fault enumeration (every truncation point) over proptest-generated graphs'),
+ 'C10': ('twin', 'exploration',
+         'Differential twin runs original vs clone with identical continuations (incl. next_id and merge), plus an independence check: mutating one copy leaves the complete observation of the other unchanged and the other still drains exactly as the reference model says.',
+         'trusted: the interpreter and, for the independence drain, the reference model',
+         'differential twin stateful property testing (original vs clone), metamorphic independence check'),
  'C15': ('hexenum', 'exploration',
          'Differential against Rust slice semantics: for generated contents, every length 0..=12 in three representations and the complete index/range space up to 14 plus usize::MAX ends; equal result or both panic. The index space is exhaustive per content, the contents are sampled.',
          'trusted: Rust slice indexing as the oracle; bounds: lengths <=12, indices <=14 and the two largest usize',
@@ -35,6 +47,10 @@ T = {
          'For generated contents every pair of lengths 0..=12 x 0..=12 in 3x3 representations is concatenated and compared with Vec concatenation; operands must stay unchanged. One open known finding (exact signature) is reported as KNOWN-FINDING and excluded so that the search continues.',
          'trusted: Vec concatenation as the oracle; known_findings.json signature concat.inline_spill_padding',
          'bounded-exhaustive enumeration of the length space over proptest-generated contents; oracle = byte concatenation'),
+ 'C19': ('multi-config', 'exploration',
+         'The same generated history is replayed twice in one process, in another process (sampled) and under a second (N, capacity) configuration; complete observation traces incl. kids() order, next_id results and merge-created ids must be identical.',
+         'differential: implementation vs itself; histories generated inside the limits of the smaller configuration',
+         'differential replay across runs, processes and configurations of proptest-generated histories'),
  'C17': ('labels', 'exploration',
          'All texts up to length 4 (quick) / 5 (thorough) over a 14-symbol alphabet enumerated completely, longer and arbitrary-unicode texts generated; round trips in both directions, injectivity, rejection, and a graph lookup under parsed vs constructed labels.',
          'trusted: the independent classifier of the documented text grammar (classify_text in harness/src/props/hexlab.rs); unspecified texts are skipped and counted',
@@ -64,7 +80,7 @@ na = [{'property_id': p['id'], 'reason': 'check under construction in this sessi
 engines = {}
 for i in claimed:
     engines.setdefault(T[i][0], []).append(i)
-paths = {'gcmodel': 'harness/src/engine.rs', 'hexenum': 'harness/src/props/hexlab.rs', 'concatenum': 'harness/src/props/hexlab.rs', 'labels': 'harness/src/props/hexlab.rs'}
+paths = {'twin': 'harness/src/props/twin.rs', 'prefixes': 'harness/src/props/prefixes.rs', 'multi-config': 'harness/src/props/multi.rs', 'gcmodel': 'harness/src/engine.rs', 'hexenum': 'harness/src/props/hexlab.rs', 'concatenum': 'harness/src/props/hexlab.rs', 'labels': 'harness/src/props/hexlab.rs'}
 m = {
     'version': 1,
     'setup_cmd': './setup.sh',
